@@ -27,7 +27,7 @@ func errClass(err error) int {
 }
 
 // twinScript runs one fixed operation sequence with symbolic parameters against a DB.
-func twinScript(db *DB, x0, x1, lit, upd float64, dir int, op int) ([]int, [][]string) {
+func twinScript(db *DB, x0, x1, lit, upd float64, dir int, op int, delta float64) ([]int, [][]string) {
 	var errs []int
 	var ids [][]string
 	rec := func(err error) { errs = append(errs, errClass(err)) }
@@ -57,6 +57,18 @@ func twinScript(db *DB, x0, x1, lit, upd float64, dir int, op int) ([]int, [][]s
 			n.Set("x", upd)
 			return n
 		}))
+	case 5:
+		// unsorted bulk update served by the index on x that moves every selected entry ahead of / behind the scan
+		calls := 0
+		rec(db.UpdateFunc(q, func(doc *d.Document) *d.Document {
+			calls++
+			n := doc.Copy()
+			if _, ok := doc.Get("x").(float64); ok {
+				n.Set("x", delta) // a constant beyond every key: all rewritten entries land ahead of (or behind) the scan
+			}
+			return n
+		}))
+		errs = append(errs, calls)
 	case 3:
 		rec(db.DropIndex("c", "x"))
 	case 4:
@@ -108,16 +120,18 @@ func normFloat(name string) float64 {
 	return ref.Value(name, ref.Opts{Kinds: ref.KFloat, FloatNormal: true}).(float64)
 }
 
-//verif:harness props=C15,C03 tier=quick bounds="the same script (create, index, insert 3 documents with symbolic float64 keys, sorted filtered query, then one of Update/Delete/sorted UpdateFunc/DropIndex/DeleteById with symbolic literal, new value and direction, then sorted, filtered and counting reads, catalog and a missing-collection error) on the real bbolt adapter and the real badger adapter over their library contract stubs: identical result sequences, counts and error classes; keys are distinct"
+//verif:harness props=C15,C03 tier=quick bounds="the same script (create, index, insert 3 documents (one symbolic float64 key, one fixed, one absent), sorted filtered query, then one of Update/Delete/sorted UpdateFunc/DropIndex/DeleteById with symbolic literal, new value and direction, then sorted, filtered and counting reads, catalog and a missing-collection error) on the real bbolt adapter and the real badger adapter over their library contract stubs: identical result sequences, counts and error classes; keys are distinct"
 func H_C15_twin_ops() {
-	x0, x1, lit, upd := normFloat("x0"), normFloat("x1"), normFloat("lit"), normFloat("upd")
+	// two symbolic keys (x0, the criteria literal) and two fixed ones keep the number of orderings small
+	x0, x1, lit, upd := normFloat("x0"), float64(2.5), normFloat("lit"), float64(-7)
 	nd.Assume(x0 != x1) // ties are ordered by id on both stores; distinct keys keep the script deterministic
 	dir := nd.Int("dir")
-	op := nd.Choice("op", 5)
+	op := nd.Choice("op", 6)
+	delta := []float64{1e300, -1e300}[nd.Choice("delta.sign", 2)]
 	dbA, _ := OpenWithStore(openAdapter(0))
 	dbB, _ := OpenWithStore(openAdapter(1))
-	ea, ia := twinScript(dbA, x0, x1, lit, upd, dir, op)
-	eb, ib := twinScript(dbB, x0, x1, lit, upd, dir, op)
+	ea, ia := twinScript(dbA, x0, x1, lit, upd, dir, op, delta)
+	eb, ib := twinScript(dbB, x0, x1, lit, upd, dir, op, delta)
 	nd.Assert("C15.twin.same-errors-and-counts", sameInts(ea, eb))
 	nd.Assert("C15.twin.same-results", sameIdLists(ia, ib))
 	nd.Reach("end")
